@@ -25,15 +25,19 @@ Pow2(k) == IF k = 0 THEN 1 ELSE 2 * Pow2(k - 1)      \* only for 0 <= k <= 30
 RECURSIVE BitLen(_)
 BitLen(x) == IF x = 0 THEN 0 ELSE 1 + BitLen(Abs(x) \div 2)
 
-(* value record: [n, e, tag]; tag "" for finite                              *)
-Val(n, e)  == [n |-> n, e |-> e, tag |-> ""]
-ValS(tag)  == [n |-> 0, e |-> 0, tag |-> tag]
+(* value record: [n, e, tag, d]; tag "" for finite.  d is an OFFSET of -1, 0 or +1 added to n * 2^e: it lets  *)
+(* the integers next to a large power of two (2^53 + 1, 2^63 - 1 ...) be values too, which n * 2^e alone cannot  *)
+(* express with a small n; only integer addition, subtraction and multiplication by 0 / 1 / -1 (IntStepOff in     *)
+(* Funcs.tla) and the comparisons (Builtins.tla) know about it, every other operation requires d = 0              *)
+Val(n, e)  == [n |-> n, e |-> e, tag |-> "", d |-> 0]
+ValD(n, e, d) == [n |-> n, e |-> e, tag |-> "", d |-> d]
+ValS(tag)  == [n |-> 0, e |-> 0, tag |-> tag, d |-> 0]
 Finite(v)  == v.tag = ""
 
 RECURSIVE NormV(_)
 NormV(v) == IF ~Finite(v) THEN v
-            ELSE IF v.n = 0 THEN Val(0, 0)
-            ELSE IF v.n % 2 = 0 THEN NormV(Val(v.n \div 2, v.e + 1))
+            ELSE IF v.n = 0 THEN Val(v.d, 0)
+            ELSE IF v.n % 2 = 0 THEN NormV(ValD(v.n \div 2, v.e + 1, v.d))
             ELSE v
 
 (* order of magnitude: |v| is in [2^(Mag-1), 2^Mag)                          *)
@@ -66,7 +70,8 @@ EqV(x0, y0) == NormV(x0) = NormV(y0)
 
 (* ---- i64 / f64 representability ------------------------------------------ *)
 FitsI64(v) == /\ Finite(v) /\ v.e >= 0
-              /\ (Mag(v) <= 63 \/ (v.n < 0 /\ NormV(v) = Val(-1, 63)))
+              /\ IF v.d = 0 THEN (Mag(v) <= 63 \/ (v.n < 0 /\ NormV(v) = Val(-1, 63)))
+                 ELSE (Mag(v) <= 63 \/ NormV(v) = ValD(1, 63, -1) \/ NormV(v) = ValD(-1, 63, 1))
 ExactF64(v) == ~Finite(v) \/ (BitLen(v.n) <= 53 /\ Mag(v) <= 1000 /\ v.e >= -1000)
 
 (* ---- integer division, truncating toward zero (TLA+ \div floors) -------- *)
@@ -93,8 +98,9 @@ FltDivV(x0, y0) ==
 
 (* ---- terms <-> values --------------------------------------------------- *)
 (* "-0" is the float negative zero: numerically zero *)
-ValOf(t) == [n |-> t.n, e |-> t.e, tag |-> IF t.s = "-0" THEN "" ELSE t.s]
-IntTerm(v) == LET w == NormV(v) IN T("int", "", w.n, w.e, <<>>, <<>>)
+ValOf(t) == [n |-> t.n, e |-> t.e, tag |-> IF t.s \in {"-0", "+1", "-1"} THEN "" ELSE t.s,
+             d |-> IF t.k = "int" /\ t.s = "+1" THEN 1 ELSE IF t.k = "int" /\ t.s = "-1" THEN -1 ELSE 0]
+IntTerm(v) == LET w == NormV(v) IN T("int", IF w.d = 1 THEN "+1" ELSE IF w.d = -1 THEN "-1" ELSE "", w.n, w.e, <<>>, <<>>)
 FltTerm(v) == LET w == NormV(v) IN T("flt", w.tag, w.n, w.e, <<>>, <<>>)
 (* canonical (normalised) form of a numeric term; other terms unchanged      *)
 NormNum(t) == IF t.k = "int" THEN IntTerm(ValOf(t))
